@@ -93,7 +93,14 @@ def run(seed=5):
         m('PulseSequence.get_filter_function', lambda: p.get_filter_function(w2, order=2, cache_intermediates=True))
         m('PulseSequence.get_total_phases', lambda: p.get_total_phases(w2 if rep == 0 else w))
         m('PulseSequence.get_filter_function_derivative', lambda: p.get_filter_function_derivative(w))
-        m('PulseSequence.get_filter_function_derivative', lambda: p.get_filter_function_derivative(w2, ['X'], ['Z'], np.ones((1,1,3))))
+        # derivatives of the sensitivities as caller-owned arrays of every memory layout: (1, 1, n_dt) — its
+        # segment-major view is contiguous —, C-ordered (2, 2, n_dt), and a moveaxis view of a segment-major array
+        ncd1 = rng.uniform(.5, 1.5, (1, 1, 3)); ncd2 = rng.uniform(.5, 1.5, (2, 2, 3))
+        ncd3 = np.moveaxis(rng.uniform(.5, 1.5, (3, 2, 2)), 0, -1)
+        m('PulseSequence.get_filter_function_derivative', lambda: p.get_filter_function_derivative(w2, ['X'], ['Xn'], ncd1), args=allargs+[ncd1])
+        m('PulseSequence.get_filter_function_derivative', lambda: p.get_filter_function_derivative(w2, None, None, ncd2), args=allargs+[ncd2])
+        m('PulseSequence.get_filter_function_derivative', lambda: p.get_filter_function_derivative(w2, None, None, ncd3), args=allargs+[ncd3])
+        m('gradient.infidelity_derivative', lambda: gradient.infidelity_derivative(p, S1, w, ['Y'], ['Xn'], ncd1), args=allargs+[ncd1])
         cm = mk().get_control_matrix(w); Fg = mk().get_filter_function(w, 'generalized'); ph = mk().get_total_phases(w)
         m('PulseSequence.cache_control_matrix', lambda: q.cache_control_matrix(w, cm), args=allargs+[cm])
         m('PulseSequence.cache_control_matrix', lambda: q.cache_control_matrix(w2))
